@@ -346,6 +346,9 @@ func c05CheckTrimmed(c *Ctx, cs *c05Case, level string, out []byte, U *gTable, r
 		c.Violation(sig+"unparsable", err.Error()+desc, cs)
 		return false
 	}
+	if len(pr.Nodes) < len(U.Flat) {
+		c05Removed = true
+	}
 	// (1) every shown entry carries its untrimmed numbers
 	exp := expectedDisplay(cs.Format, U)
 	if bad := subMultiset(canonNodes(pr.Nodes, true, false, false), canonNodes(exp, true, false, false)); bad != "" {
@@ -753,7 +756,7 @@ func runC05(c *Ctx) {
 		return
 	}
 	r := NewRng(c.Seed ^ 0xC05)
-	nProfiles := 220 * c.Scale
+	nProfiles := 360 * c.Scale
 	var cliCases []*c05Case
 	fracs := [][2]int64{{0, 1}, {1, 64}, {1, 16}, {1, 8}, {1, 4}, {3, 8}, {1, 2}, {3, 4}, {1, 1}, {2, 1}}
 	for i := 0; i < nProfiles; i++ {
@@ -851,17 +854,19 @@ func runC05(c *Ctx) {
 			cs := &c05Case{Level: "report", Profile: canon, Format: formats[(i+k)%len(formats)],
 				Req:       gReq{CallTree: r.Chance(25), Agg: c04RandAgg(r), VI: r.Intn(len(p.SampleType)), Mean: r.Chance(25)},
 				NodeCount: []int{0, 1, 2, 3, 5, 8, 100}[r.Intn(7)], FracNum: f[0], FracDen: f[1], EdgeNum: e[0], EdgeDen: e[1], CumSort: r.Bool()}
-			c.Res.Count(canon+"report"+fmt.Sprint(*cs), true)
 			c.Res.Hit("report-format:" + cs.Format)
 			c.Res.Hit(fmt.Sprintf("nodecount:%d", cs.NodeCount))
 			c.Res.Hit("nodefraction:" + fracArg(cs.FracNum, cs.FracDen))
 			if i < 2 && k == 0 {
 				c.Res.Sample(map[string]any{"strategy": st, "format": cs.Format, "nodecount": cs.NodeCount, "nodefraction": fracArg(cs.FracNum, cs.FracDen), "profile": trunc(canon)})
 			}
+			c05Removed = false
 			c05Report(c, cs)
+			c.Res.Count(canon+"report"+fmt.Sprint(*cs), c05Removed)
 			if k == 0 && i%2 == 0 && c.Pprof != "" {
 				cc := *cs
 				cc.Level = "cli"
+				cc.Format = []string{"text", "tree", "dot", "topproto"}[(i/2)%4]
 				cc.Req.Agg = nil
 				cc.Gran = r.Pick([]string{"", "functions", "filefunctions", "files", "lines", "addresses"})
 				cc.NoInlines = r.Chance(30)
@@ -884,13 +889,18 @@ func runC05(c *Ctx) {
 	}
 	wg.Wait()
 	for i, cs := range cliCases {
-		c.Res.Count(cs.Profile+"cli"+strings.Join(cs.cliArgs("F"), " "), true)
+		c05Removed = false
 		c05CLICheck(c, cs, results[i])
+		c.Res.Count(cs.Profile+"cli"+strings.Join(cs.cliArgs("F"), " "), c05Removed)
 	}
 	if c04TmpDir != "" {
 		os.RemoveAll(c04TmpDir)
 	}
 }
+
+// c05Removed is set by c05CheckTrimmed when the report shows fewer entries than the untrimmed
+// graph has (the non-triviality criterion of the report/cli levels).
+var c05Removed bool
 
 func c05Debug(format string, a ...any) {
 	if os.Getenv("VERIF_DEBUG") != "" {
